@@ -13,12 +13,18 @@ Base/Table.vos Base/Table.vok Base/Table.required_vos: Base/Table.v Base/Bytes.v
 Gen/CmdTable.vo Gen/CmdTable.glob Gen/CmdTable.v.beautified Gen/CmdTable.required_vo: Gen/CmdTable.v 
 Gen/CmdTable.vio: Gen/CmdTable.v 
 Gen/CmdTable.vos Gen/CmdTable.vok Gen/CmdTable.required_vos: Gen/CmdTable.v 
+Gen/Config.vo Gen/Config.glob Gen/Config.v.beautified Gen/Config.required_vo: Gen/Config.v 
+Gen/Config.vio: Gen/Config.v 
+Gen/Config.vos Gen/Config.vok Gen/Config.required_vos: Gen/Config.v 
 Gen/Crc16.vo Gen/Crc16.glob Gen/Crc16.v.beautified Gen/Crc16.required_vo: Gen/Crc16.v 
 Gen/Crc16.vio: Gen/Crc16.v 
 Gen/Crc16.vos Gen/Crc16.vok Gen/Crc16.required_vos: Gen/Crc16.v 
 Gen/Crc64.vo Gen/Crc64.glob Gen/Crc64.v.beautified Gen/Crc64.required_vo: Gen/Crc64.v 
 Gen/Crc64.vio: Gen/Crc64.v 
 Gen/Crc64.vos Gen/Crc64.vok Gen/Crc64.required_vos: Gen/Crc64.v 
+Gen/Flow.vo Gen/Flow.glob Gen/Flow.v.beautified Gen/Flow.required_vo: Gen/Flow.v 
+Gen/Flow.vio: Gen/Flow.v 
+Gen/Flow.vos Gen/Flow.vok Gen/Flow.required_vos: Gen/Flow.v 
 Gen/Rdb.vo Gen/Rdb.glob Gen/Rdb.v.beautified Gen/Rdb.required_vo: Gen/Rdb.v 
 Gen/Rdb.vio: Gen/Rdb.v 
 Gen/Rdb.vos Gen/Rdb.vok Gen/Rdb.required_vos: Gen/Rdb.v 
@@ -49,6 +55,9 @@ Model/Digest.vos Model/Digest.vok Model/Digest.required_vos: Model/Digest.v Base
 Model/Filter.vo Model/Filter.glob Model/Filter.v.beautified Model/Filter.required_vo: Model/Filter.v Base/Bytes.vo Base/Dec.vo Gen/Crc16.vo
 Model/Filter.vio: Model/Filter.v Base/Bytes.vio Base/Dec.vio Gen/Crc16.vio
 Model/Filter.vos Model/Filter.vok Model/Filter.required_vos: Model/Filter.v Base/Bytes.vos Base/Dec.vos Gen/Crc16.vos
+Model/FlowCert.vo Model/FlowCert.glob Model/FlowCert.v.beautified Model/FlowCert.required_vo: Model/FlowCert.v 
+Model/FlowCert.vio: Model/FlowCert.v 
+Model/FlowCert.vos Model/FlowCert.vok Model/FlowCert.required_vos: Model/FlowCert.v 
 Model/Handoff.vo Model/Handoff.glob Model/Handoff.v.beautified Model/Handoff.required_vo: Model/Handoff.v Base/Bytes.vo Base/Dec.vo Model/RespCodec.vo Model/Filter.vo
 Model/Handoff.vio: Model/Handoff.v Base/Bytes.vio Base/Dec.vio Model/RespCodec.vio Model/Filter.vio
 Model/Handoff.vos Model/Handoff.vok Model/Handoff.required_vos: Model/Handoff.v Base/Bytes.vos Base/Dec.vos Model/RespCodec.vos Model/Filter.vos
@@ -109,6 +118,9 @@ Proofs/DecodeProofs.vos Proofs/DecodeProofs.vok Proofs/DecodeProofs.required_vos
 Proofs/DigestProofs.vo Proofs/DigestProofs.glob Proofs/DigestProofs.v.beautified Proofs/DigestProofs.required_vo: Proofs/DigestProofs.v Base/Bytes.vo Base/Table.vo Base/Endian.vo Spec/Crc64.vo Gen/Crc64.vo Model/Digest.vo Proofs/Crc64Proofs.vo
 Proofs/DigestProofs.vio: Proofs/DigestProofs.v Base/Bytes.vio Base/Table.vio Base/Endian.vio Spec/Crc64.vio Gen/Crc64.vio Model/Digest.vio Proofs/Crc64Proofs.vio
 Proofs/DigestProofs.vos Proofs/DigestProofs.vok Proofs/DigestProofs.required_vos: Proofs/DigestProofs.v Base/Bytes.vos Base/Table.vos Base/Endian.vos Spec/Crc64.vos Gen/Crc64.vos Model/Digest.vos Proofs/Crc64Proofs.vos
+Proofs/FlowProofs.vo Proofs/FlowProofs.glob Proofs/FlowProofs.v.beautified Proofs/FlowProofs.required_vo: Proofs/FlowProofs.v Model/FlowCert.vo
+Proofs/FlowProofs.vio: Proofs/FlowProofs.v Model/FlowCert.vio
+Proofs/FlowProofs.vos Proofs/FlowProofs.vok Proofs/FlowProofs.required_vos: Proofs/FlowProofs.v Model/FlowCert.vos
 Proofs/HandoffProofs.vo Proofs/HandoffProofs.glob Proofs/HandoffProofs.v.beautified Proofs/HandoffProofs.required_vo: Proofs/HandoffProofs.v Base/Bytes.vo Base/Dec.vo Model/RespCodec.vo Model/Filter.vo Model/Handoff.vo Model/Offsets.vo Proofs/RespProofs.vo
 Proofs/HandoffProofs.vio: Proofs/HandoffProofs.v Base/Bytes.vio Base/Dec.vio Model/RespCodec.vio Model/Filter.vio Model/Handoff.vio Model/Offsets.vio Proofs/RespProofs.vio
 Proofs/HandoffProofs.vos Proofs/HandoffProofs.vok Proofs/HandoffProofs.required_vos: Proofs/HandoffProofs.v Base/Bytes.vos Base/Dec.vos Model/RespCodec.vos Model/Filter.vos Model/Handoff.vos Model/Offsets.vos Proofs/RespProofs.vos
@@ -199,6 +211,9 @@ Props/C17.vos Props/C17.vok Props/C17.required_vos: Props/C17.v Base/Bytes.vos M
 Props/C18.vo Props/C18.glob Props/C18.v.beautified Props/C18.required_vo: Props/C18.v Base/Bytes.vo Model/Backlog.vo Proofs/BacklogProofs.vo
 Props/C18.vio: Props/C18.v Base/Bytes.vio Model/Backlog.vio Proofs/BacklogProofs.vio
 Props/C18.vos Props/C18.vok Props/C18.required_vos: Props/C18.v Base/Bytes.vos Model/Backlog.vos Proofs/BacklogProofs.vos
+Props/C19.vo Props/C19.glob Props/C19.v.beautified Props/C19.required_vo: Props/C19.v Model/FlowCert.vo Proofs/FlowProofs.vo Gen/Flow.vo Gen/Config.vo
+Props/C19.vio: Props/C19.v Model/FlowCert.vio Proofs/FlowProofs.vio Gen/Flow.vio Gen/Config.vio
+Props/C19.vos Props/C19.vok Props/C19.required_vos: Props/C19.v Model/FlowCert.vos Proofs/FlowProofs.vos Gen/Flow.vos Gen/Config.vos
 Props/C20.vo Props/C20.glob Props/C20.v.beautified Props/C20.required_vo: Props/C20.v Base/Bytes.vo Model/Supervisor.vo Proofs/SupervisorProofs.vo Gen/Supervisor.vo
 Props/C20.vio: Props/C20.v Base/Bytes.vio Model/Supervisor.vio Proofs/SupervisorProofs.vio Gen/Supervisor.vio
 Props/C20.vos Props/C20.vok Props/C20.required_vos: Props/C20.v Base/Bytes.vos Model/Supervisor.vos Proofs/SupervisorProofs.vos Gen/Supervisor.vos
